@@ -32,6 +32,8 @@ CHECKS = {
             {"name": "TestC01Mid", "quick": 1500, "thorough": 288000},
             {"name": "TestC01ManyFields", "quick": 150, "thorough": 14400},
             {"name": "TestC01Huge", "quick": 3, "thorough": 240, "min_per_shard": 3},
+            {"name": "TestC01Sparse", "quick": 10, "thorough": 960, "min_per_shard": 5},
+            {"name": "TestC01Counts", "quick": 40, "thorough": 3840, "min_per_shard": 8},
             {"name": "TestC01Terms", "quick": 100, "thorough": 9600, "min_per_shard": 20},
             {"name": "TestC01Regress", "quick": 0},
         ],
@@ -40,7 +42,10 @@ CHECKS = {
     "C02": {
         "level": "exploration",
         "tests": fam("C02", (2500, 480000), (25, 4800), (40, 1920), regress=False, mid=(1200, 230400), extra=({"name": "TestC02ManyFields", "quick": 60, "thorough": 5760, "min_per_shard": 20}, {"name": "TestC02Huge", "quick": 2, "thorough": 96, "min_per_shard": 2},
-                                                                                              {"name": "TestC02Boundary", "quick": 120, "thorough": 11520, "min_per_shard": 20})),
+                                                                                              {"name": "TestC02Boundary", "quick": 120, "thorough": 11520, "min_per_shard": 20},
+                                                                                              {"name": "TestC02Sparse", "quick": 6, "thorough": 480, "min_per_shard": 3},
+                                                                                              {"name": "TestC02Gaps", "quick": 30, "thorough": 2880, "min_per_shard": 6},
+                                                                                              {"name": "TestC02Counts", "quick": 20, "thorough": 1920, "min_per_shard": 5})),
         "assumptions": COMMON_ASSUMPTIONS,
     },
     "C03": {
@@ -73,7 +78,8 @@ CHECKS = {
     },
     "C11": {
         "level": "exploration",
-        "tests": fam("C11", (3000, 576000), (60, 11520), wide=(8, 768), mid=(1000, 192000), extra=({"name": "TestC11Big", "quick": 4, "thorough": 192, "min_per_shard": 4},)),
+        "tests": fam("C11", (3000, 576000), (60, 11520), wide=(8, 768), mid=(1000, 192000), extra=({"name": "TestC11Big", "quick": 4, "thorough": 192, "min_per_shard": 4},
+                                                                                                   {"name": "TestC11Aligned", "quick": 100, "thorough": 9600, "min_per_shard": 20})),
         "assumptions": COMMON_ASSUMPTIONS + ["the footer layout is taken from README.md"],
     },
     "C13": {
